@@ -1,14 +1,17 @@
 #!/venv/bin/python
 """Run each kept seeded change (/verif/seeded/<ID>-<X>/patch.diff) against the check of
-its own property (and all others) on a scratch copy; print a table."""
-import glob, json, os, shutil, subprocess, sys, tempfile
+its own property (and all others) on a scratch copy; print a table.
+usage: tools/score_seeded.py [--json] [--only GLOB] [-j N]   (--json rewrites seeded/SCORE.json, all seeds only)"""
+import fnmatch, glob, json, os, shutil, subprocess, sys, tempfile
+import multiprocessing as mp
 sys.path.insert(0, os.path.dirname(os.path.dirname(os.path.abspath(__file__))))
 from s3tlint import engine, rules
 from s3tlint.ir import Program, AnalysisError
 from s3tlint.props import PROPS
-rules.load_all()
-rows = []
-for d in sorted(glob.glob('/verif/seeded/C*-*')):
+
+
+def work(d):
+    rules.load_all()
     name = os.path.basename(d)
     prop = name.split('-')[0]
     tmp = tempfile.mkdtemp(prefix='s3tlint_seed_')
@@ -16,24 +19,37 @@ for d in sorted(glob.glob('/verif/seeded/C*-*')):
         shutil.copytree('/repo/s3transfer', os.path.join(tmp, 's3transfer'))
         r = subprocess.run(['patch', '-p1', '-s', '-d', tmp, '-i', os.path.join(d, 'patch.diff')], capture_output=True, text=True)
         if r.returncode != 0:
-            rows.append((name, 'PATCH-FAILS', '', ''))
-            continue
-        own, others, errs = [], [], []
+            return (name, 'PATCH-FAILS', '', '', '')
+        own, others, errs, detail = [], [], [], []
         prog = Program.load(tmp)
         for p in sorted(PROPS):
             code, ctx, viol = engine.run_property(p, 'quick', program=prog, write=False, quiet=True)
             rs = sorted({o.rule for o in viol})
             if p == prop:
                 own = rs
-                errs = [r_ for r_, m in (ctx.errors if ctx else [])]
+                errs = [f'{r_}: {m[:90]}' for r_, m in (ctx.errors if ctx else [])]
+                detail = [f'{o.rule} {o.func}: {o.construct[:70]}' for o in viol][:3]
             elif rs:
                 others.append(f'{p}:{",".join(rs)}')
-        rows.append((name, 'CAUGHT' if own else ('error' if errs else 'missed'), ','.join(own), ' '.join(others)))
+        return (name, 'CAUGHT' if own else ('error' if errs else 'missed'), ','.join(own), ' '.join(others), ' | '.join(detail or errs))
     finally:
         shutil.rmtree(tmp, ignore_errors=True)
-for r in rows:
-    print('%-8s %-8s own=[%s] others=[%s]' % r)
-c = sum(1 for r in rows if r[1] == 'CAUGHT')
-print(f'{c}/{len(rows)} caught by the check of their own property')
-if '--json' in sys.argv:
-    json.dump([dict(zip(('seed', 'verdict', 'own_rules', 'other_props'), r)) for r in rows], open('/verif/seeded/SCORE.json', 'w'), indent=1)
+
+
+def main():
+    args = sys.argv[1:]
+    only = args[args.index('--only') + 1] if '--only' in args else '*'
+    j = int(args[args.index('-j') + 1]) if '-j' in args else 12
+    dirs = [d for d in sorted(glob.glob('/verif/seeded/C*-*')) if fnmatch.fnmatch(os.path.basename(d), only)]
+    with mp.get_context('fork').Pool(j) as pool:
+        rows = pool.map(work, dirs, chunksize=1)
+    for r in rows:
+        print('%-8s %-8s own=[%s] others=[%s]' % r[:4] + (f'\n           {r[4]}' if '-v' in args and r[4] else ''))
+    c = sum(1 for r in rows if r[1] == 'CAUGHT')
+    print(f'{c}/{len(rows)} caught by the check of their own property')
+    if '--json' in args and only == '*':
+        json.dump([dict(zip(('seed', 'verdict', 'own_rules', 'other_props', 'detail'), r)) for r in rows], open('/verif/seeded/SCORE.json', 'w'), indent=1)
+
+
+if __name__ == '__main__':
+    main()
